@@ -338,6 +338,12 @@ def write_replay(prop_id, bucket, rec, seed):
     return os.path.relpath(path, VERIF_DIR)
 
 
+def evidence_dir():
+    """evidence/ under /verif; the sensitivity tools set VERIF_EVIDENCE_DIR so that a run against a scratch copy
+    of the library never overwrites the evidence of the real tree."""
+    return os.environ.get("VERIF_EVIDENCE_DIR") or os.path.join(VERIF_DIR, "evidence")
+
+
 def write_evidence(mod, stats, tier, seed, wall_s, bionumpy_file, n_violations):
     samples = list(stats.first_nontrivial)
     for s in stats.stride_samples:
@@ -372,7 +378,7 @@ def write_evidence(mod, stats, tier, seed, wall_s, bionumpy_file, n_violations):
         "wall_s": round(wall_s, 2),
         "violations": int(n_violations),
     }
-    d = os.path.join(VERIF_DIR, "evidence")
+    d = evidence_dir()
     os.makedirs(d, exist_ok=True)
     with open(os.path.join(d, mod.ID + ".json"), "w") as f:
         json.dump(ev, f, indent=1, default=str)
